@@ -418,9 +418,77 @@ def run(chk):
     wsess.flush()
 
 
+    run_security(chk)
+
+
+def secured_fragments(pcrc):
+    ''' a BIB-protected bundle (HMAC-256 over the payload block, AAD covers the primary block) as sent by a
+    real agent with a security association, and an independent 2-way fragmentation of it (the BIB
+    travels in the first fragment only) '''
+    snd = fl.Rig(node_id='dtn://sender/')
+    snd.enable_security()
+    spec = base_spec('dtn://src/', 4000, 77, (pcrc, 2, 0), 0)
+    spec['blocks'][-1]['btsd'] = payload(300, 5).hex()
+    whole = snd.send(spec, None)[0][0]
+    p = fl.read_bundle(whole)
+    q = p['primary']
+    P = [b for b in p['blocks'] if b['num'] == 1][0]['btsd']
+
+    def frag(lo, hi):
+        s = {'flags': q['flags'] | 1, 'crc': q['crc'], 'dest': cbor_text(q['dest']), 'src': cbor_text(q['src']), 'rpt': None,
+             'time': q['time'], 'seq': q['seq'], 'lifetime': q['lifetime'], 'fragoff': lo, 'total': len(P), 'blocks': []}
+        for b in p['blocks']:
+            if b['num'] == 1:
+                s['blocks'].append({'type': 1, 'num': 1, 'flags': b['flags'], 'crc': b['crc'], 'btsd': P[lo:hi].hex()})
+            elif lo == 0:
+                s['blocks'].append({'type': b['type'], 'num': b['num'], 'flags': b['flags'], 'crc': b['crc'], 'btsd': b['btsd'].hex()})
+        return fl.encode_bundle(s)
+    return whole, [frag(0, 100), frag(100, 300)], P
+
+
+def security_replay(pcrc):
+    whole, frs, P = secured_fragments(pcrc)
+    r0 = fl.Rig(node_id='dtn://node/')
+    r0.enable_security()
+    r0.recv(whole)
+    r0.drain()
+    rcv = fl.Rig(node_id='dtn://node/')
+    rcv.enable_security()
+    for f in frs:
+        rcv.recv(f)
+        rcv.drain()
+    return len(r0.delivered), len(rcv.delivered), [x.hex() for x in frs]
+
+
+def run_security(chk):
+    ''' D28: the destination verifies BIBs (security policy on). Implementation only: the model has no
+    BPSec receive steps; Props/C06 `C06_synth_primary` states what reassembly does to the primary block. '''
+    for pcrc in (0, 1, 2):
+        try:
+            nwhole, nreasm, frs = security_replay(pcrc)
+        except Exception as err:
+            chk.notes.append('security-on stream skipped: %r' % (err,))
+            chk.count('security-on:skipped')
+            return
+        chk.case(['sec-reasm', pcrc, nwhole, nreasm], nontrivial=True)
+        chk.count('security-on:primary-crc-%d:%s' % (pcrc, 'delivered' if nreasm == 1 else 'not-delivered'))
+        if nwhole == 1 and nreasm != 1:
+            chk.violation('C06:reassembled-fails-integrity',
+                          'a BIB-protected bundle whose primary block carries a CRC (type %d) is delivered when it arrives whole, '
+                          'but its fragments reassemble to a bundle whose primary block has CRC type none: the BIB (AAD covers the '
+                          'primary block) no longer verifies, the bundle is deleted with FAILED_SEC' % pcrc,
+                          {'security': 'hmac256-bib-on-payload', 'primary_crc': pcrc,
+                           'events': [['recv', x] for x in frs] + [['idle', 0]]})
+
+
 def replay(chk, path):
     obj = json.load(open(path))
     rep = obj.get('replay', obj)
+    if rep.get('security'):
+        nwhole, nreasm, _ = security_replay(rep['primary_crc'])
+        print('BIB-protected bundle, primary CRC type %d: delivered when received whole: %d; delivered after reassembly of 2 fragments: %d'
+              % (rep['primary_crc'], nwhole, nreasm))
+        return 1 if (nwhole == 1 and nreasm != 1) else 0
     rig = fl.Rig(node_id='dtn://node/')
     loop = rig.m['GLib'].LOOP
     for kind, arg in rep['events']:
